@@ -278,8 +278,23 @@ func ruleC13ListMark(c *Ctx) {
 	fi2 := ComputeFacts(gm)
 	getList := p.Method("boltz", "TypedBucket", "GetList")
 	okR := false
-	for _, call := range callsIn(gm) {
+	readsList := func(call ssa.CallInstruction) bool {
 		if isCallTo(call, getList) {
+			return true
+		}
+		// a helper of the package that reads the bucket back as a list
+		if sc := call.Common().StaticCallee(); sc != nil && sc.Pkg == gm.Pkg && sc.Signature.Recv() != nil {
+			if rs := sc.Signature.Results(); rs.Len() == 1 {
+				if sl, isSl := rs.At(0).Type().Underlying().(*types.Slice); isSl {
+					_, isI := sl.Elem().Underlying().(*types.Interface)
+					return isI
+				}
+			}
+		}
+		return false
+	}
+	for _, call := range callsIn(gm) {
+		if readsList(call) {
 			okR = fi2.HoldsWhere(call.Block(), func(f Fact) bool {
 				k, isCall := f.V.(*ssa.Call)
 				return f.Kind == "nonnil" && f.Pol && isCall && hasMarkerArg(k)
@@ -327,7 +342,20 @@ func ruleC13ListOrder(c *Ctx) {
 		return false
 	}
 	n := 0
-	for _, fn := range allFuncsWithAnon(gl) {
+	// the element loop may live in a helper GetList hands the bucket to
+	scan := allFuncsWithAnon(gl)
+	for _, call := range callsIn(gl) {
+		if sc := call.Common().StaticCallee(); sc != nil && sc.Pkg == gl.Pkg && len(sc.Blocks) > 0 && sc != p.SSAFunc(gm) {
+			if rs := sc.Signature.Results(); rs.Len() == 1 {
+				if sl, isSl := rs.At(0).Type().Underlying().(*types.Slice); isSl {
+					if _, isI := sl.Elem().Underlying().(*types.Interface); isI {
+						scan = append(scan, allFuncsWithAnon(sc)...)
+					}
+				}
+			}
+		}
+	}
+	for _, fn := range scan {
 		for _, call := range callsIn(fn) {
 			if !isCallTo(call, gm) || len(call.Common().Args) < 2 {
 				continue
